@@ -751,12 +751,23 @@ def rule_quote_inverse(chk, fb, rid="C02.j.inv"):
         fl = Flow(fb, b)
         for bi, t in fl.calls(lambda t: t.get("fn", "").endswith("Address::set_address")):
             at = fl.atoms(t["args"][1]) if len(t["args"]) > 1 else set()
-            undone = False
-            for a in at:
-                if a[0] == "call" and a[1].endswith("str>::replace"):
-                    rt = b["blocks"][a[2]]["t"]
-                    if len(rt["args"]) == 3 and (rt["args"][1].get("s") == "''" or ("const", "''") in fl.atoms(rt["args"][1])) and ("const", "'") in fl.atoms(rt["args"][2]):
-                        undone = True
+            def halves(fn_body, fl_, atoms_, depth=0):
+                for a in atoms_:
+                    if a[0] != "call":
+                        continue
+                    if a[1].endswith("str>::replace"):
+                        rt = fn_body["blocks"][a[2]]["t"]
+                        if len(rt["args"]) == 3 and (rt["args"][1].get("s") == "''" or ("const", "''") in fl_.atoms(rt["args"][1])) and ("const", "'") in fl_.atoms(rt["args"][2]):
+                            return True
+                    elif a[1] in fb.mir and depth < 2 and "String" in fb.ty(fb.mir[a[1]]["locals"][0]["t"]):
+                        # a crate helper that returns the cleaned text
+                        hb = fb.mir[a[1]]
+                        hfl = Flow(fb, hb)
+                        if halves(hb, hfl, hfl.atoms(0), depth + 1):
+                            return True
+                return False
+
+            undone = halves(b, fl, at)
             chk.touch(d)
             chk.ob(r, "%s#%d" % (d.split("::", 2)[-1], n), undone or not writer_doubles, where="%s:%s" % (b["file"], t["ln"]),
                    detail="the writer doubles apostrophes: %s; this reader halves them before parsing: %s" % (writer_doubles, undone))
